@@ -223,6 +223,8 @@ def run_job(spec):
                         if w.get('exception') is None or po.exc not in w['exception']:
                             res['witness_mismatch'].append({'inputs': w.get('inputs'), 'expected_exception': po.exc,
                                                             'got': w.get('exception'), 'out': got})
+                    elif w.get('skip_compare'):
+                        pass
                     elif w.get('exception') is not None or not close(exp, got, spec.get('tol', 1e-6)):
                         res['witness_mismatch'].append({'inputs': w.get('inputs'), 'symbolic': exp, 'real': got,
                                                         'exception': w.get('exception')})
